@@ -267,7 +267,9 @@ func xarg(o *Op) map[string][]byte {
 				break
 			}
 		}
-		out[name] = []byte(`{"unterminated": [1, 2`)
+		// unparseable in different ways: cut short, a surplus closing brace / bracket after a complete value, trailing text
+		bad := []string{`{"unterminated": [1, 2`, `{"rev":"2-b"}}`, `[1,2,3]]`, `{"a":1} ]`, `{"a":1} x`, `{"a":1}{"b":2}`}
+		out[name] = []byte(bad[(len(o.Key)+len(o.X)+len(name)+int(o.Exp%7))%len(bad)])
 	}
 	return out
 }
